@@ -166,6 +166,26 @@ def ps(prog: Program, res: Result, select: Callable[[FuncInfo], bool]) -> None:
                 res.bad("PS", fi.short, desc, where, f"shape is selected by `{a[:60]}` but subscript columns by `{b[:60]}`")
 
 
+def _kr_operand_order(fi: FuncInfo, c: ast.Call) -> Optional[str]:
+    """'cyclic' when the factor list handed to khatrirao is `B[k:] + B[:j]` (a tail of the list followed by a head of it); None otherwise."""
+    ops = [a.value if isinstance(a, ast.Starred) else a for a in c.args]
+    if len(ops) != 1:
+        return None
+    e = fi.resolve(ops[0])
+    while isinstance(e, ast.Call) and (dotted(e.func) or "") in ("list", "tuple") and len(e.args) == 1:
+        e = e.args[0]
+    if not (isinstance(e, ast.BinOp) and isinstance(e.op, ast.Add)):
+        return None
+    l, r = e.left, e.right
+    if not all(isinstance(x, ast.Subscript) and isinstance(x.slice, ast.Slice) and x.slice.step is None for x in (l, r)):
+        return None
+    if ast.unparse(l.value) != ast.unparse(r.value):
+        return None
+    if l.slice.lower is not None and r.slice.lower is None and r.slice.upper is not None:
+        return "cyclic"
+    return None
+
+
 def kr(prog: Program, res: Result, select: Callable[[FuncInfo], bool], exempt: Set[str]) -> None:
     f = facts(prog)
     k = 0
@@ -177,6 +197,10 @@ def kr(prog: Program, res: Result, select: Callable[[FuncInfo], bool], exempt: S
         where = prog.loc(fi, c)
         if fi.short in exempt:
             res.ok("KR", fi.short, desc, where, "builds subscript sets only (reviewed)", nontrivial=False)
+        elif v is True and _kr_operand_order(fi, c) == "cyclic":
+            res.bad("KR", fi.short, desc, where,
+                    "the operands are listed cyclically (the modes after the skipped one first, then the modes before it): the rows of the product "
+                    "follow that order, not the ascending order of the unfolding they are multiplied with (visible for a middle mode of >= 3)")
         elif v is True:
             res.ok("KR", fi.short, desc, where)
         elif v is False:
@@ -458,6 +482,9 @@ def cnt_ctor(prog: Program, res: Result, select: Callable[[FuncInfo], bool], rul
                 if isinstance(c, ast.Call) and c in ctor_nodes:
                     a, b = _ev.ev(c.args[0], env), _ev.ev(c.args[1], env)
                     a, b = R._subst(a, subst), R._subst(b, subst)
+                    if all(isinstance(x, ast.Call) and (dotted(x.func) or "") in ("np.array", "numpy.array") and len(x.args) == 1
+                           and isinstance(x.args[0], (ast.List, ast.Tuple)) and not x.args[0].elts for x in c.args[:2]):
+                        a = b = R.Arr(R.sp.Integer(0), None, 1)  # two empty literals: no rows on either side
                     _seen.setdefault(id(c), []).append((c, a, b))
 
         ev.run(fi, on_stmt=hook)
